@@ -72,7 +72,7 @@ def run(prog, rep):
     prog.method("FlodymArray", "__getitem__")
     run_array_property(prog, rep, "C06", ["index", "orders", "misc", "patterns", "index@uniform", "misc@uniform"], aspects)
     run_where(prog, rep)
-    rep.rules["C06.read-region"]["floor"] = 85 if rep.tier == "quick" else 1365
+    rep.rules["C06.read-region"]["floor"] = 85 if rep.tier == "quick" else 1000
     rep.rules["C06.write-region"]["floor"] = 85 if rep.tier == "quick" else 1365
     if rep.exhaustive is None:
         rep.exhaustive = True
